@@ -100,7 +100,7 @@ def c04(ctx):
     for fn, bi, kind, s in common.field_accesses(F, EXEC, "control_flow_state"):
         if kind == "mutref":
             rep.fail("C04.R1", "mutref::" + common.top_fn(F, fn).path, "a mutable reference to control_flow_state is taken in %s" % fn.path, fn.loc(s.get("line")))
-    rep.floor("C04.R1", len(writes), 5, "writes of control_flow_state")
+    rep.floor("C04.R1", len(writes), 3, "writes of control_flow_state")
     for fn, bi, s in writes:
         top = common.top_fn(F, fn)
         for v in written_variants(fn, s):
@@ -362,4 +362,4 @@ def c04(ctx):
                 again = bb in fn.reachable_from_succs(bb, avoid=insp)
                 rep.ob("C04.R7", key, not again, "" if not again else "%s can execute %s again without looking at control_flow_state" % (fn.path, callee.def_.rsplit("::", 1)[-1]),
                        fn.loc(fn.term(bb)["line"]), how="every cycle passes a read of the state")
-    rep.floor("C04.R7", n_sites, 3, "repeated-execution sites")
+    rep.floor("C04.R7", n_sites, 2, "repeated-execution sites")
